@@ -631,12 +631,162 @@ fn chain_part(run: &Run, shard: usize, n: usize, n_hist: u64, deadline: f64) {
 			run.violation("C01;chain;final_validate", &format!("validate(false): {:?}", e), replay.clone());
 		} else {
 			run.count("chain_full_validations", 1);
+			forged_state_step(run, &chain, &mut h, &mut p, i, &sig, &replay, opts);
 		}
 		if i < 1 {
 			run.sample(json!({"kind": "history", "shape": sig, "blocks": h.blocks.len(), "value_creating_blocks_refused": forged}));
 		}
 		drop(chain);
 		let _ = std::fs::remove_dir_all(&dir);
+	}
+}
+
+/// Whole-state acceptance. A node also "accepts a history" wholesale: after a state sync, and whenever it
+/// validates its own state in full (`Chain::validate(false)`: the same `Extension::validate` call that
+/// `txhashset_write` and the desegmenter make). A block that creates value is written into the node's state
+/// behind the block pipeline (the way a received state arrives: txhashset extension + block + body head);
+/// every header commitment of that block is correct (computed by the reference ledger), so only the
+/// balance / signature / range-proof rules can refuse it — and full validation must.
+///   unsigned_kernel_hiding_value: an output is inflated by delta and delta*H is added to the kernel excess:
+///       all sums balance, but nobody can sign for that excess (the old signature stays);
+///   foreign_range_proof: an output inflated by delta carries... no: an honest transaction whose two
+///       outputs have their range proofs swapped (sums balance, signatures fine);
+///   inflated_output: an output inflated by delta, nothing else (full-state sums do not balance).
+/// The forged block holds 1 or 2 transactions, chosen so that the kernel MMR ends with an even / odd
+/// number of kernels in turn (signature and proof verification work in batches over the MMR).
+fn forged_state_step(
+	run: &Run,
+	chain: &grin_chain::Chain,
+	h: &mut vcommon::forktree::Hist,
+	p: &mut Prng,
+	i: u64,
+	sig: &str,
+	replay: &serde_json::Value,
+	opts: Options,
+) {
+	use grin_chain::txhashset;
+	let kind = (i % 3) as usize;
+	let name = ["unsigned_kernel_hiding_value", "range_proofs_swapped_between_outputs", "inflated_output"][kind];
+	let want_even = (i / 3) % 2 == 0;
+	let head = match chain.head() {
+		Ok(t) => t.last_block_h,
+		Err(_) => return,
+	};
+	let world = h.world.clone();
+	let secp = world.kc.secp();
+	let prevh = h.ledger.header(&head).clone();
+	let k_before = h.ledger.kernels_of(&head).len();
+	let coins: Vec<vcommon::world::Coin> = h.spendable(&head).into_iter().filter(|c| c.value > 10_000_000).collect();
+	if coins.is_empty() {
+		run.count("state_forged.skipped_no_spendable_coin", 1);
+		return;
+	}
+	// kernels after the forged block: k_before + 1 (coinbase) + m
+	let mut m = if (k_before + 1 + 1) % 2 == 0 { if want_even { 1 } else { 2 } } else if want_even { 2 } else { 1 };
+	if coins.len() < m {
+		m = 1;
+	}
+	let mut pf = h.prng.fork(77);
+	let fee = 1_000_000u64;
+	let delta = 1 + p.below(1_000_000_000);
+	let mut txs = vec![];
+	for (j, c) in coins.iter().take(m).enumerate() {
+		let forged = j == 0;
+		let (ka, kb) = (h.fresh_key(), h.fresh_key());
+		let total = c.value - fee;
+		let a = total / 2;
+		let b = total - a;
+		if !forged {
+			let (tx, _) = world.tx(&mut pf, &[c.clone()], &[(a, ka), (b, kb)], KernelFeatures::Plain { fee: fee_fields(fee) });
+			txs.push(tx);
+			continue;
+		}
+		let mut tx = match kind {
+			0 | 2 => world.tx(&mut pf, &[c.clone()], &[(a + delta, ka), (b, kb)], KernelFeatures::Plain { fee: fee_fields(fee) }).0,
+			_ => world.tx(&mut pf, &[c.clone()], &[(a, ka), (b, kb)], KernelFeatures::Plain { fee: fee_fields(fee) }).0,
+		};
+		match kind {
+			0 => {
+				let dc = secp.commit_value(delta).unwrap();
+				let forged_excess = secp.commit_sum(vec![tx.body.kernels[0].excess, dc], vec![]).unwrap();
+				tx.body.kernels[0].excess = forged_excess;
+			}
+			1 => {
+				let p0 = tx.body.outputs[0].proof;
+				tx.body.outputs[0].proof = tx.body.outputs[1].proof;
+				tx.body.outputs[1].proof = p0;
+			}
+			_ => {}
+		}
+		txs.push(tx);
+	}
+	let kcb = h.fresh_key();
+	let (o, kn) = world.coinbase(&kcb, fee * m as u64);
+	let mut b = match Block::from_reward(&prevh, &txs, o, kn, grin_core::pow::Difficulty::from_num(1 + p.below(500))) {
+		Ok(b) => b,
+		Err(e) => {
+			run.inconclusive(&format!("forged state: block could not be assembled: {:?}", e));
+			return;
+		}
+	};
+	b.header.timestamp = prevh.timestamp + chrono::Duration::seconds(45);
+	b.header.pow.proof.edge_bits = grin_core::global::min_edge_bits();
+	h.ledger.commit_header(&mut b);
+	vcommon::world::skip_pow_proof(&mut b.header, &mut pf);
+	// the pipeline refuses it
+	if chain.process_block(b.clone(), opts).is_ok() {
+		run.violation(
+			&format!("C01;chain;value_creating_block_accepted;{}", name),
+			&format!("block {} ({}) accepted by process_block", b.hash(), name),
+			replay.clone(),
+		);
+		return;
+	}
+	// the header on its own is acceptable; install the body behind the pipeline
+	if let Err(e) = chain.process_block_header(&b.header, opts) {
+		run.inconclusive(&format!("forged state: the forged block's header was refused ({:?}); the forged state cannot be installed", e));
+		return;
+	}
+	let installed: Result<(), String> = (|| {
+		let store = chain.store();
+		let header_pmmr = chain.header_pmmr();
+		let txhashset = chain.txhashset();
+		let mut header_pmmr = header_pmmr.write();
+		let mut txhashset = txhashset.write();
+		let mut batch = store.batch().map_err(|e| format!("{:?}", e))?;
+		txhashset::extending(&mut header_pmmr, &mut txhashset, &mut batch, |ext, batch| {
+			ext.extension.apply_block(&b, ext.header_extension, batch)
+		})
+		.map_err(|e| format!("apply_block: {:?}", e))?;
+		batch.save_block(&b).map_err(|e| format!("{:?}", e))?;
+		batch
+			.save_body_head(&grin_chain::Tip::from_header(&b.header))
+			.map_err(|e| format!("{:?}", e))?;
+		batch.commit().map_err(|e| format!("{:?}", e))?;
+		Ok(())
+	})();
+	if let Err(e) = installed {
+		run.inconclusive(&format!("forged state ({}) could not be installed: {}", name, e));
+		return;
+	}
+	let n_kernels = k_before + b.kernels().len();
+	let parity = if n_kernels % 2 == 0 { "even" } else { "odd" };
+	let r = chain.validate(false);
+	run.count(&format!("state_forged.{}.kernels_{}", name, parity), 1);
+	run.count("state_forged.full_validations", 1);
+	run.eval(&format!("state;{};{};{}", sig, name, parity), true);
+	if r.is_ok() {
+		run.violation(
+			&format!("C01;state;forged_state_passes_full_validation;{}", name),
+			&format!(
+				"a state whose head block {} creates value ({}; {} kernels in the kernel MMR, {} in the forged block) passes Chain::validate(false)",
+				b.hash(),
+				name,
+				n_kernels,
+				b.kernels().len()
+			),
+			replay.clone(),
+		);
 	}
 }
 
@@ -662,7 +812,9 @@ fn main() {
 		 the whole-block sum still balances, coinbase flag removed from output / kernel, second subsidy, plain output flagged \
 		 coinbase, header total offset changed, coinbase output carrying another output's range proof, reward split over two coinbase outputs one of which commits to a negative value under a junk proof (sums and verify_coinbase balance). Chain: fork-tree histories; before half of the deliveries a value-creating block \
 		 with reference-computed header commitments must be refused by process_block; after every accepted block the stored \
-		 running sums of the head == sums recomputed from the replayed full state and unspent − supply(height) == kernels + offset. \
+		 running sums of the head == sums recomputed from the replayed full state and unspent − supply(height) == kernels + offset; at the end of every history a value-creating block (unsigned kernel \
+		 whose excess hides the created value / swapped range proofs / inflated output; all header commitments correct) is installed \
+		 behind the pipeline as the node's head, for even and odd kernel counts, and Chain::validate(false) must refuse the state. \
 		 Every case counts as non-trivial; distinct by (shape, operator).",
 	);
 	run.assume("secp256k1-zkp (range proofs, signatures, point addition) is the trusted base; a forged proof that verifies is out of reach");
@@ -686,5 +838,11 @@ fn main() {
 	}
 	run.require("chain_blocks_accepted", run.counter("chain_blocks_accepted"), run.tier.pick(100, 1000));
 	run.require("chain_full_state_equations_checked", run.counter("chain_full_state_equations_checked"), run.tier.pick(100, 1000));
+	for k in ["unsigned_kernel_hiding_value", "range_proofs_swapped_between_outputs", "inflated_output"] {
+		for par in ["even", "odd"] {
+			let c = format!("state_forged.{}.kernels_{}", k, par);
+			run.require(&c, run.counter(&c), run.tier.pick(1, 8));
+		}
+	}
 	run.finish();
 }
